@@ -17,12 +17,16 @@ pub fn syms_from_files(paths: &str) -> Vec<PartialDSym> {
     let mut out = vec![];
     for p in paths.split(',').filter(|p| !p.is_empty()) {
         for j in read_lines(p) {
-            if j.get("v").is_some() && complete_ops(&j) {
+            if j.get("v").is_some() && complete_ops(&j) && all_v(&j) {
                 out.push(dsym_from_json(&j));
             }
         }
     }
     out
+}
+
+pub fn all_v(j: &Value) -> bool {
+    j["v"].as_array().unwrap().iter().all(|r| r.as_array().unwrap().iter().all(|x| x.as_u64() != Some(0)))
 }
 
 pub fn complete_ops(j: &Value) -> bool {
